@@ -205,6 +205,42 @@ func TestReplay(t *testing.T) {
 	wg.Wait()
 	h.Eval("SharedGoastNew")
 	h.NonTrivial("SharedGoastNew", "witness")
+	// repeated import-managed restores with competing alias requests (conflict resolution must
+	// not depend on map iteration order)
+	{
+		src := "package root\n\nimport (\n\tyaml \"gopkg.in/yaml.v2\"\n\t\"lib/util\"\n)\n\nvar _ = yaml.Marshal\nvar _ = util.F\n"
+		var first string
+		for i := 0; i < 200; i++ {
+			fset := token.NewFileSet()
+			af, err := parser.ParseFile(fset, "a.go", src, parser.ParseComments)
+			if err != nil {
+				t.Fatal(err)
+			}
+			df, err := decorator.NewDecoratorWithImports(fset, rootPath, goast.New()).DecorateFile(af)
+			if err != nil {
+				t.Fatal(err)
+			}
+			// a second package is referenced and asked to be called yaml too; a third wants util's name
+			decl := df.Decls[len(df.Decls)-1].(*dst.GenDecl)
+			decl.Specs[0].(*dst.ValueSpec).Values = append(decl.Specs[0].(*dst.ValueSpec).Values, &dst.Ident{Name: "Unmarshal", Path: "gopkg.in/yaml.v3"}, &dst.Ident{Name: "G", Path: "example.com/z/util"})
+			decl.Specs[0].(*dst.ValueSpec).Names = append(decl.Specs[0].(*dst.ValueSpec).Names, dst.NewIdent("_"), dst.NewIdent("_"))
+			fr := decorator.NewRestorerWithImports(rootPath, guess.New()).FileRestorer()
+			fr.Alias["gopkg.in/yaml.v3"] = "yaml"
+			fr.Alias["example.com/z/util"] = "util"
+			fr.Alias["lib/util"] = "util"
+			var buf bytes.Buffer
+			if err := fr.Fprint(&buf, df); err != nil {
+				h.Fail(t, "AliasDeterminism", src, "restore: %v", err)
+			}
+			if i == 0 {
+				first = buf.String()
+			} else if buf.String() != first {
+				h.Fail(t, "AliasDeterminism", src, "repeating an import-managed restore with competing alias requests gives different bytes (run %d):\n%s\n--- vs ---\n%s", i, first, buf.String())
+			}
+		}
+		h.Eval("AliasDeterminism")
+		h.NonTrivial("AliasDeterminism", "competing-aliases")
+	}
 	files := gen.CorpusSmall()
 	var pick [][]byte
 	for i := 0; i < len(files) && len(pick) < 40; i += 37 {
